@@ -382,6 +382,10 @@ func c10GenLoop(t *rapid.T) c10Scenario {
 		if op.K == "node" && !nodeChurn {
 			op.K = "rr"
 		}
+		if op.K == "rr" && (nodeMissing[0] || nodeMissing[1] || nodeMissing[2]) {
+			// while a Node object is missing the reconcilers are stalled; let the collector look instead
+			op.K = "gccr"
+		}
 		switch op.K {
 		case "node":
 			// the Node object of the pod's node (or a drawn node) goes missing / comes back
